@@ -48,6 +48,9 @@ class FnSpec:
         self.n16 = kw.pop('n16', False)
         self.safety_props = kw.pop('safety_props', None)
         self.group = kw.pop('group', None)
+        self.brace_arms = kw.pop('brace_arms', False)   # N25
+        self.bind = kw.pop('bind', {})                   # {name: regex with one group}: `$name` in clauses / hints / anchors stands for the text the group
+                                                         # captures in the normalised function text (names of locals are taken from the code, not assumed)
         self.guard = kw.pop('guard', None)               # contract for the body of a nested Drop guard (N14): dict(requires=[E], ensures=[E])
         self.optional = kw.pop('optional', False)     # item may be absent (e.g. an override of a trait default); then nothing to check             # emit inside the named group block (see Unit.groups)
         if kw:
@@ -109,6 +112,7 @@ class Generated:
         self.fn_ranges = []     # (line_start, line_end, key)
         self.lemmas = {}        # name -> (line_start, line_end, props)
         self.lost = []
+        self.stubbed = set()    # functions emitted as contract-only stubs (isolation): their obligations are undecided
         self.trusted = []
         self.cheats_outside_prelude = []
 
@@ -162,7 +166,7 @@ def _privatise(t):
     return t
 
 
-def generate(unit, repo, vacuity=False, falsify=False):
+def generate(unit, repo, vacuity=False, falsify=False, stub_fns=None):
     from . import extract as _ex
     _ex.FEATURES = set(unit.features) if unit.features is not None else {'parallel'}
     _ex.Source._cache.clear()
@@ -238,6 +242,8 @@ def generate(unit, repo, vacuity=False, falsify=False):
             text, r = A.n6_enumerate(text); norms += r
             text, r = A.n18_continue(text); norms += r
             text, r = A.n22_while_let(text); norms += r
+            if spec.brace_arms:
+                text, r = A.n25_brace_arms(text); norms += r
             if spec.n4:
                 text, r = A.n4_unwrap_or_else(text); norms += r
                 text, r = A.n4b_ok_and_then(text); norms += r
@@ -248,7 +254,40 @@ def generate(unit, repo, vacuity=False, falsify=False):
                 text, r = A.n16_add_assign(text); norms += r
             text, r = A.regex_rules(text, DEFAULT_RULES + unit.global_rules + spec.rules); norms += r
             text, hoisted, r = A.n14_hoist(text, guard=(dict(requires=[('guard.req.' + c.label, c.expr) for c in spec.guard.get('requires', [])], ensures=[('guard.ens.' + c.label, c.expr) for c in spec.guard.get('ensures', [])]) if spec.guard else None)); norms += r
+            stubbed = False
+            base_text = text
+            spec_orig = spec
+            if spec.bind:
+                import copy as _copy
+                vals, missing = {}, []
+                for bn, brx in spec.bind.items():
+                    bm = re.search(brx, text)
+                    if bm:
+                        vals[bn] = bm.group(1)
+                    else:
+                        missing.append(bn)
+                def _sub(x):
+                    if isinstance(x, str):
+                        for bn, bv in vals.items():
+                            x = x.replace('$' + bn, bv)
+                        return x
+                    if isinstance(x, Clause):
+                        return Clause(x.label, _sub(x.expr), x.props)
+                    if isinstance(x, tuple):
+                        return tuple(_sub(y) for y in x)
+                    if isinstance(x, list):
+                        return [_sub(y) for y in x]
+                    if isinstance(x, dict):
+                        return {k_: _sub(v_) for k_, v_ in x.items()}
+                    return x
+                spec = _copy.copy(spec)
+                spec.requires, spec.ensures, spec.loops = _sub(spec.requires), _sub(spec.ensures), _sub(spec.loops)
+                spec.hints, spec.closures = _sub(spec.hints), _sub(spec.closures)
+                if missing:
+                    stub_fns = set(stub_fns or ()) | {key}
             try:
+                if stub_fns and key in stub_fns:
+                    raise A.Lost('function uses a construct outside the verifier\'s subset (or its annotations no longer fit)')
                 if spec.ret:
                     text = A.set_return_name(text, spec.ret)
                 def cname(n):
@@ -264,27 +303,49 @@ def generate(unit, repo, vacuity=False, falsify=False):
                     loops[n] = l2
                 text = A.insert_loops(text, loops)
                 text, lost_hints = A.insert_hints(text, spec.hints)
+                if lost_hints:
+                    # a proof hint that has lost its anchor would make a true obligation unprovable: never verify without it
+                    raise A.Lost('hint anchors lost: %s' % lost_hints)
                 if vacuity:
                     text, _ = A.insert_hints(text, [('start', None, 'proof { /*@L:vacuity*/ assert(false); /*@E*/ }')])
                 text = A.insert_header(text, [('req.' + c.label, c.expr) for c in spec.requires],
                                        [('ens.' + c.label, c.expr) for c in spec.ensures], spec.extra)
             except A.Lost as e:
+                # ISOLATION: the function is emitted as a stub — its header and contract, no body — so that the rest of the unit is
+                # still verified (callers see the contract as an assumption); its own obligations are undecided
                 g.lost.append('%s: %s' % (key, e))
-                continue
+                g.stubbed.add(key)
+                stubbed = True
+                def cname(n):
+                    return ('closure%d' % n) if isinstance(n, int) else 'closure[%s]' % A.squash(n)
+                try:
+                    text = base_text
+                    if spec.ret:
+                        text = A.set_return_name(text, spec.ret)
+                    ft_ = A.FnText(text)
+                    text = text[:ft_.toks[ft_.body_open].start] + '{ unimplemented!() }'
+                    text = A.insert_header(text, [('req.' + c.label, c.expr) for c in spec.requires],
+                                           [('ens.' + c.label, c.expr) for c in spec.ensures], '')
+                    spec_attr_stub = '#[verifier::external_body]'
+                    hoisted = ''
+                except Exception as e2:
+                    g.lost.append('%s: cannot even be stubbed: %s' % (key, e2))
+                    continue
+            attr_ = (('#[verifier::external_body]' + (' ' if spec.attr else '')) if stubbed else '') + (spec.attr or '')
             if spec.free:
                 text = re.sub(r'\bfn\s+\w+', 'fn ' + spec.free, text, count=1)
-                out = '/*@FN:%s*/\n%s%s\n' % (key, (spec.attr + '\n') if spec.attr else '', text)
+                out = '/*@FN:%s*/\n%s%s\n' % (key, (attr_ + '\n') if attr_ else '', text)
             elif spec.group:
-                out = '/*@FN:%s*/\n%s    %s\n' % (key, ('    ' + spec.attr + '\n') if spec.attr else '', text)
+                out = '/*@FN:%s*/\n%s    %s\n' % (key, ('    ' + attr_ + '\n') if attr_ else '', text)
             elif item.parent is not None:
                 ih = spec.impl_header
                 if ih is None:
                     ih = ' '.join(item.parent.header.split())
                     ih, _ = A.n1_strip(ih)
                     ih, r = A.regex_rules(ih, unit.global_rules + spec.impl_rules); norms += r
-                out = '%s%s {\n/*@FN:%s*/\n%s    %s\n}\n' % ((hoisted + '\n') if hoisted else '', ih, key, ('    ' + spec.attr + '\n') if spec.attr else '', text)
+                out = '%s%s {\n/*@FN:%s*/\n%s    %s\n}\n' % ((hoisted + '\n') if hoisted else '', ih, key, ('    ' + attr_ + '\n') if attr_ else '', text)
             else:
-                out = '/*@FN:%s*/\n%s%s\n' % (key, (spec.attr + '\n') if spec.attr else '', text)
+                out = '/*@FN:%s*/\n%s%s\n' % (key, (attr_ + '\n') if attr_ else '', text)
             # obligations
             fprops = spec.props
             for c in spec.ensures:
@@ -307,8 +368,6 @@ def generate(unit, repo, vacuity=False, falsify=False):
                 expr='callee preconditions, asserts/expect/unwrap (panic freedom), index bounds, arithmetic overflow, termination')
         body.append((out, dict(key=key, kind=spec.kind, file=spec.file, path=spec.path, lines=item.lines,
                                sha256=item.sha256, norms=norms, lost_hints=lost_hints, group=getattr(spec, 'group', None))))
-        if lost_hints:
-            g.lost.append('%s: hint anchors lost: %s' % (key, lost_hints))
 
     full = header + 'use std::ops::{Deref, DerefMut};\nuse std::marker::PhantomData;\nverus! {\n' + pre_text + spec_text + '// ---- extracted from %s\n' % repo
     line = full.count('\n') + 1
